@@ -742,3 +742,45 @@ def rule_attach_on_fail(ctx):
         ctx.holds("ATTACH", "ATTACH:Hclose", f.where(), "every path with attach > 0 returns FAIL", nontrivial=True)
     ctx.floor("ATTACH", 6, decs, "(end-of-access routines that decrement the attach count)")
     return n
+
+
+def rule_bool_result_vs_fail(ctx):
+    """BOOLFAIL (C16): the XDR/netCDF layer reports failure with FALSE (bool_t), the HDF layer with FAIL (-1).  A result of type
+    bool_t compared with FAIL is never equal to it: the error branch is dead and every failure below the call — here the whole
+    metadata write-out of SDend — is dropped, after which the dirty flags are cleared and the close succeeds."""
+    from .facts import kind, strip, walk, render, is_int, int_val
+    prog = ctx.prog
+    n = 0
+    for f in prog.lib_funcs():
+        if not f.rel.startswith("mfhdf/src/"):
+            continue
+        ordn = 0
+        for _b, _i, s, x in f.nodes(True):
+            if x[0] != "bin" or x[1] not in ("==", "!="):
+                continue
+            for a, o in ((x[2], x[3]), (x[3], x[2])):
+                ua = strip(a)
+                if kind(ua) == "call" and ua[1] and is_int(o) and int_val(o) in (-1, 0, 1):
+                    g = prog.func(ua[1])
+                    if g is None or "bool_t" not in str(g.ret):
+                        continue
+                    ordn += 1
+                    n += 1
+                    key = "BOOLFAIL:%s#%d" % (f.name, ordn)
+                    if int_val(o) == -1:
+                        ctx.violated("BOOLFAIL", key, f.where(s.get("l")), "`%s` compares the bool_t result of %s with FAIL (-1); it only ever is TRUE or FALSE, so the failure branch can never "
+                                     "be taken and a failure of %s is dropped" % (render(x)[:70], ua[1], ua[1]))
+                    else:
+                        ctx.holds("BOOLFAIL", key, f.where(s.get("l")), "`%s`" % render(x)[:60], nontrivial=False)
+        # `if (!call())` / `if (call())` are the normal forms; count them as instances too
+        for b in f.blocks.values():
+            t = b.get("term")
+            if t and t.get("cond") is not None:
+                c = strip(t["cond"])
+                inner = strip(c[2]) if kind(c) == "un" and c[1] == "!" else c
+                if kind(inner) == "call" and inner[1]:
+                    g = prog.func(inner[1])
+                    if g is not None and "bool_t" in str(g.ret):
+                        n += 1
+    ctx.floor("BOOLFAIL", 10, n, "(tests of bool_t results in the SD/netCDF layer)")
+    return n
